@@ -102,7 +102,7 @@ def storageRun (storage : String) (cap : Nat) (fill : Byte)
   | "alloc" => run AllocVec [] (fun _ => [])
   | _ => "bad-op"
 
-def accAnswer (n : Nat) (t : Ty) (chunks : List (List Byte)) : String :=
+def accEvents (n : Nat) (t : Ty) (chunks : List (List Byte)) : List String :=
   -- `T::deserialize` on the accumulated frame: from_bytes_cobs::<T>(&mut buf[..idx])
   let decF : List Byte → Option Val := accDecoder t
   -- run the documented loop chunk by chunk, recording the buffer after every call
@@ -129,7 +129,18 @@ def accAnswer (n : Nat) (t : Ty) (chunks : List (List Byte)) : String :=
       | _ => (a', "empty-chunk-not-consumed" :: st.2)
     else go (2 * c.length + 2) st.1 c st.2
   let (_, out) := chunks.foldl one (Acc.new n, [])
-  "acc" ++ String.join (out.reverse.map (" ; " ++ ·))
+  out.reverse
+
+def accAnswer (n : Nat) (t : Ty) (chunks : List (List Byte)) : String :=
+  "acc" ++ String.join ((accEvents n t chunks).map (" ; " ++ ·))
+
+/-- endurance: the same chunk `count` times into ONE accumulator, then a tail; event kinds are tallied and the
+last events listed -/
+def accRepAnswer (n : Nat) (t : Ty) (count : Nat) (chunk tail : List Byte) : String :=
+  let evs := accEvents n t (List.replicate count chunk ++ [tail])
+  let tally (c : Char) : Nat := (evs.filter (fun e => e.front == c)).length
+  let last := evs.drop (evs.length - 6)
+  s!"accrep events={evs.length} C={tally 'C'} O={tally 'O'} E={tally 'E'} S={tally 'S'}" ++ String.join (last.map (" ; " ++ ·))
 
 def dynErrName : DynErr → String
   | .schemaMismatch => "schema-mismatch"
@@ -288,6 +299,15 @@ def handle (line : String) : String :=
             storageRun storage cap 0xA5 (fun F s0 memOf =>
               let r := collectStrWith (CrcSer alg nbytes F) (s0, alg.init) pieces; fin r.2 (memOf r.1.1))) "bad-op"
       | _, _ => "bad-op"
+    | "bigslice", [.atom framing, .atom _cap, v] =>
+      -- a caller buffer far larger than the output (the harness sends capacities >= 2^32 - 1): by
+      -- `to_slice_threshold` / `to_slice_cobs_threshold` / `to_slice_crc_threshold` the result is the complete output
+      match valOfSexp v with
+      | some v =>
+        if framing == "plain" then serAnswer (toAllocVec v)
+        else if framing == "cobs" then serAnswer (cobsOfVal AllocVec [] v).2
+        else withAlg framing (fun _ alg nbytes => serAnswer (toAllocVecCrc alg nbytes v)) "bad-op"
+      | none => "bad-op"
     | "cobsenc", [.atom storage, .atom cap, .atom h] =>
       match cap.toNat?, bytesOfHex h with
       | some cap, some m =>
@@ -334,6 +354,10 @@ def handle (line : String) : String :=
       match n.toNat?, tyOfSexp t, chunks.mapM (fun c => match c with | .atom h => bytesOfHex h | _ => none) with
       | some n, some t, some cs => accAnswer n t cs
       | _, _, _ => "bad-op"
+    | "accrep", [.atom n, t, .atom count, .atom chunk, .atom tail] =>
+      match n.toNat?, tyOfSexp t, count.toNat?, bytesOfHex chunk, bytesOfHex tail with
+      | some n, some t, some count, some chunk, some tail => accRepAnswer n t count chunk tail
+      | _, _, _, _, _ => "bad-op"
     | "deg", [t, .atom h] =>
       match tyOfSexp t, bytesOfHex h with
       | some t, some bs => deAnswer (dec t bs)
